@@ -1,6 +1,7 @@
 import FluentProofs.ConstTieSyntax
 import FluentProofs.SerializerEntries
 import FluentProofs.SerializerLineSplit
+import FluentProofs.SerializerSources
 /-!
 # C04 — serializer round trip
 
@@ -259,6 +260,31 @@ theorem roundtrip_singleline_partial (withJunk : Bool) (r : Resource Bytes)
   obtain ⟨t', h3, h4, h5⟩ := h2 hs
   exact ⟨t', h3, h4, by rw [h4], h5⟩
 
+/-- **The serializer's output on a parsed tree is again a `&str`-shaped byte string**: for every
+`String` and both options, the output of serialising its parse tree satisfies `AsciiThenBoundary` (the
+only UTF-8 fact the parser model uses).  Proof: every string of the tree is a slice at char boundaries
+(`C01.parse_slices_valid`), such slices never start with a continuation byte and never have one after
+an ASCII byte, and the `TextWriter` only interleaves them with ASCII (writer invariant by mutual
+structural induction, `Ser.serialize_atb`). -/
+theorem serialize_output_str_invariant (str : String) (t : Resource Span) (errs : List PErr)
+    (hp : parse str.toUTF8.data = .done (t, errs)) (withJunk : Bool) (out : Bytes)
+    (h : Ser.serialize withJunk (resolve str.toUTF8.data t) = some out) : AsciiThenBoundary out.toArray :=
+  serialize_atb_of_parse str t errs hp withJunk out h
+
+/-- **T2 `roundtrip_singleline_partial`, for sources.**  `C04_roundtrip_statement` and
+`C04_fixpoint_statement` restricted to the strings whose parse tree consists of simple entries
+(`validSimpleEntry`, a decidable predicate on the tree) — no further hypothesis: the re-parse has no
+errors and resolves to exactly the same tree. -/
+theorem roundtrip_singleline_sources (str : String) (withJunk : Bool) (t : Resource Span) (errs : List PErr)
+    (hp : parse str.toUTF8.data = .done (t, errs))
+    (hv : ∀ e ∈ resolve str.toUTF8.data t, validSimpleEntry e = true) :
+    ∃ out, Ser.serialize withJunk (resolve str.toUTF8.data t) = some out ∧
+      ∃ t' errs', parse out.toArray = .done (t', errs') ∧
+        norm withJunk (resolve out.toArray t') = norm withJunk (resolve str.toUTF8.data t) ∧
+        Ser.serialize withJunk (resolve out.toArray t') = some out := by
+  obtain ⟨out, h1, t', h2, h3, h4⟩ := roundtrip_singleline_source str withJunk t errs hp hv
+  exact ⟨out, h1, t', [], h2, by rw [h3], h4⟩
+
 /-! ## non-vacuity and sanity tests (`decide +kernel` on literals: these are tests, not proofs of the property) -/
 
 /-- the two full statements evaluated on one source (test helper): serialise, re-parse, compare under
@@ -325,6 +351,12 @@ example : entryBytes (.message ⟨[97], some [.text [120, 32],
       .placeable (.inline (.fn [70, 79, 79] [.num [49]] [([107], .str [118])])), .text [32, 121],
       .placeable (.inline (.placeable (.inline (.var [122]))))], [], none⟩) =
     "a = x { FOO(1, k: \"v\") } y{{ $z }}\n".toUTF8.data.toList := by decide +kernel
+
+/-- test: the hypothesis of `roundtrip_singleline_sources` is satisfiable: the parse tree of
+`"a = x { FOO(1, k: \"v\") } y\n-t = { $z }\n"` consists of simple entries -/
+example : (match parse "a = x { FOO(1, k: \"v\") } y\n-t = { $z }\n".toUTF8.data with
+    | .done (t, _) => (resolve "a = x { FOO(1, k: \"v\") } y\n-t = { $z }\n".toUTF8.data t).all validSimpleEntry
+    | _ => false) = true := by decide +kernel
 
 /-- test: the unrestricted `norm` is *not* a congruence — `[text "x\n", text "y"]` and `[text "x\ny"]`
 have the same `norm` but serialise differently (continuation indented / not indented) -/
